@@ -21,7 +21,7 @@ func ZZIndexQuery(mask, q, ct int) {
 	req := &proto.WriteRequest{Puts: []*proto.PutRequest{{Key: SessionKey(1), Value: []byte("m")}}}
 	var present []int
 	for i, sk := range zzSecKeys {
-		pk := "p" + string(rune('1'+i))
+		pk := "p+%" + string(rune('1'+i))
 		idx := []*proto.SecondaryIndex{{IndexName: "i0", SecondaryKey: sk}, {IndexName: "i2", SecondaryKey: sk}, {IndexName: "i1-x", SecondaryKey: sk}, {IndexName: "i", SecondaryKey: sk}}
 		if mask&(1<<i) != 0 {
 			idx = append(idx, &proto.SecondaryIndex{IndexName: "i1", SecondaryKey: sk})
@@ -68,7 +68,7 @@ func ZZIndexQuery(mask, q, ct int) {
 		} else {
 			vAssert("get-found", gr.Status == proto.Status_OK)
 			if gr.Status == proto.Status_OK {
-				vAssert("get-returns-the-reference-record", gr.Key != nil && *gr.Key == "p"+string(rune('1'+exp)))
+				vAssert("get-returns-the-reference-record", gr.Key != nil && *gr.Key == "p+%"+string(rune('1'+exp)))
 				vAssert("get-secondary-key", gr.SecondaryIndexKey != nil && *gr.SecondaryIndexKey == zzSecKeys[exp])
 			}
 		}
@@ -87,7 +87,7 @@ func ZZIndexQuery(mask, q, ct int) {
 	for ; it.Valid(); it.Next() {
 		vAssert("list-within-reference", n < len(want))
 		if n < len(want) {
-			vAssert("list-entry", it.Key() == "p"+string(rune('1'+want[n])))
+			vAssert("list-entry", it.Key() == "p+%"+string(rune('1'+want[n])))
 		}
 		n++
 	}
@@ -99,7 +99,7 @@ func ZZIndexQuery(mask, q, ct int) {
 		g, gerr := rit.Value()
 		vAssert("scan-record-readable", gerr == nil && g.Status == proto.Status_OK)
 		if n < len(want) && gerr == nil {
-			vAssert("scan-entry", *g.Key == "p"+string(rune('1'+want[n])))
+			vAssert("scan-entry", *g.Key == "p+%"+string(rune('1'+want[n])))
 		}
 		n++
 	}
